@@ -77,15 +77,16 @@ func historyExtra(c *core.Ctx, tc *tcase, v reflect.Value, data []byte) map[stri
 
 func roundTripCase(c *core.Ctx, idx int, mode int) {
 	sharedTick(c, idx)
-	if idx%509 == 9 {
+	sweep := idx%16 == 3 // (the index windows leave no gaps: no other special case takes their turn)
+	if idx%509 == 9 && !sweep {
 		bigContainers(c, idx, mode)
 		return
 	}
-	if idx%37 == 11 && mode == modeC01 {
+	if idx%37 == 11 && mode == modeC01 && !sweep {
 		lateRegistration(c, idx)
 		return
 	}
-	if idx%41 == 13 {
+	if idx%41 == 13 && !sweep {
 		cfg := instCfgs()[idx%4]
 		countedContainers(c, idx, cfg, instNew(cfg))
 		return
@@ -98,6 +99,15 @@ func roundTripCase(c *core.Ctx, idx int, mode int) {
 		if pt := pointerShaped(tc.typ, idx/11); tc.cfg.Validate(pt, "") == "" {
 			tc.typ = pt
 			rec.Count("pointer_shaped_types", 1)
+		}
+	}
+	if sweep {
+		// every field index in turn: consecutive windows of 24 indexes, from 0 up to the bound of D29,
+		// each window with a low and a far field beside it (round 11: q01)
+		if st := indexWindow(idx / 16); tc.cfg.Validate(st, "") == "" {
+			tc.typ = st
+			rec.Count("index_window_types", 1)
+			rec.Count("indexes_swept", indexWindowWidth)
 		}
 	}
 	var cerr error
@@ -224,6 +234,39 @@ func roundTripCase(c *core.Ctx, idx int, mode int) {
 }
 
 // setStrings sets every string below v (map keys excepted) to s and returns how many it set
+const indexWindowWidth = 24
+
+// indexWindow builds a struct with a field at every index of the w-th window of indexWindowWidth
+// consecutive indexes (windows wrap at the bound known finding D29 sets), field types in turn, plus a
+// field at index 1 or 0 and one far above the window
+func indexWindow(w int) reflect.Type {
+	T := reflect.TypeOf
+	leaf := reflect.StructOf([]reflect.StructField{{Name: "A", Type: T(int8(0)), Tag: `plenc:"1"`}, {Name: "B", Type: T(""), Tag: `plenc:"2"`}})
+	kinds := []reflect.Type{T(int(0)), T(""), T([]int32(nil)), T((*int16)(nil)), leaf, T(float64(0)), T(true), T([]string(nil)), T(map[string]int(nil)), T(uint64(0)), reflect.PointerTo(leaf), T([]byte(nil)), T(float32(0)), reflect.SliceOf(leaf), T(uint8(0)), T((*string)(nil)), T(time.Time{})}
+	base := (w * indexWindowWidth) % (100000 - indexWindowWidth - 1)
+	var fs []reflect.StructField
+	order := rand.New(rand.NewPCG(uint64(w), 77)).Perm(indexWindowWidth)
+	for _, i := range order {
+		t := kinds[(w+i)%len(kinds)]
+		tag := fmt.Sprintf(`plenc:"%d"`, base+i)
+		if k := t.Kind(); k == reflect.Int && (w+i)%2 == 0 {
+			tag = fmt.Sprintf(`plenc:"%d,flat"`, base+i)
+		} else if k == reflect.String && (w+i)%3 == 0 {
+			tag = fmt.Sprintf(`plenc:"%d,intern"`, base+i)
+		}
+		fs = append(fs, reflect.StructField{Name: fmt.Sprintf("F%d", i), Type: t, Tag: reflect.StructTag(tag)})
+	}
+	if base > 1 {
+		fs = append(fs, reflect.StructField{Name: "Low", Type: T(""), Tag: reflect.StructTag(fmt.Sprintf(`plenc:"%d"`, w%2))})
+	}
+	far := base + indexWindowWidth + []int{1, 2, 100, 1000, 4096, 30000}[w%6]
+	if far > 100000 {
+		far = 100000
+	}
+	fs = append(fs, reflect.StructField{Name: "Far", Type: T(int32(0)), Tag: reflect.StructTag(fmt.Sprintf(`plenc:"%d"`, far))})
+	return reflect.StructOf(fs)
+}
+
 func setStrings(v reflect.Value, s string, depth int) int {
 	if depth > 10 {
 		return 0
